@@ -14,7 +14,7 @@ CONSTANTS
   OSeqs = {"1", "11", "111", "1111"}
   DSeqsB = {"1", "65537", "4294967295", "4294967296", "4294967297", "8589934593", "9223372036854775808", "18446744073709551615"}
   SeqsB = {"1", "255", "256", "257", "65535", "65536", "65537", "4294967295"}
-  MaxGroupsD = 16
+  MaxGroupsD = 20
   MaxGroupsG = 12
 INIT ExportInit
 NEXT ExportNext
